@@ -197,11 +197,17 @@ def answer(line, timeout=4):
     if fn is None:
         return "SKIP unknown-op"
     old = signal.signal(signal.SIGALRM, _alarm)
-    # repeating timer: if the first Hang is swallowed by a broad `except` in the code under test,
-    # the next tick raises again
+    oldp = signal.signal(signal.SIGPROF, _alarm)
+    # The work budget is CPU time of this worker (ITIMER_PROF), so that a loaded machine - other checks,
+    # the test suite - cannot turn a slow-but-finite op into a HANG; a wall-clock timer far above it is the
+    # backstop for a call that blocks without computing.  Repeating timers: if the first Hang is swallowed
+    # by a broad `except` in the code under test, the next tick raises again.
     if f[0] == "hist":
         timeout = 120          # loads are traced event by event
-    signal.setitimer(signal.ITIMER_REAL, timeout, 1.0)
+    elif f[0] == "histq":
+        timeout = 30           # hundreds of seeded get_random draws per op
+    signal.setitimer(signal.ITIMER_PROF, timeout, 1.0)
+    signal.setitimer(signal.ITIMER_REAL, max(60, 20 * timeout), 5.0)
     try:
         return fn(f)
     except Hang:
@@ -216,8 +222,10 @@ def answer(line, timeout=4):
             return "SKIP harness-binding " + type(e).__name__
         return exc_cat(e)
     finally:
+        signal.setitimer(signal.ITIMER_PROF, 0)
         signal.setitimer(signal.ITIMER_REAL, 0)
         signal.signal(signal.SIGALRM, old)
+        signal.signal(signal.SIGPROF, oldp)
 
 
 # more ops live in their own modules; importing them registers them
